@@ -295,17 +295,25 @@ let monitor_obs (m : mon) (o : obs) =
           Hashtbl.replace m.votes key (string_of_int c);
           (match List.assoc_opt c (List.assoc id logs) with
            | Some e when before >= 0 && List.hd (String.split_on_char ':' e) = t ->
-               let vs = conf_voters (field s "conf") in
-               let holders = List.filter (fun v ->
-                   match Hashtbl.find_opt m.lastlog v with
-                   | Some l -> List.assoc_opt c (parse_log l) = Some e
-                   | None -> false) vs in
-               if 2 * List.length holders <= List.length vs then
+               (* the configuration in force when the entry was counted: the one shown now or the one shown
+                  before this step (applying the committed entry may itself have changed it) *)
+               let confs = field s "conf" :: (match Hashtbl.find_opt m.votes ("conf-of/" ^ id) with Some c -> [c] | None -> []) in
+               let check conf =
+                 let vs = conf_voters conf in
+                 let holders = List.filter (fun v ->
+                     match Hashtbl.find_opt m.lastlog v with
+                     | Some l -> List.assoc_opt c (parse_log l) = Some e
+                     | None -> false) vs in
+                 (2 * List.length holders > List.length vs, holders, vs) in
+               if not (List.exists (fun conf -> let (ok, _, _) = check conf in ok) confs) then begin
+                 let (_, holders, vs) = check (List.nth confs (List.length confs - 1)) in
                  violate m "C09" (Printf.sprintf "leader %s of term %s committed index %d (%s) held by %d of the %d voters of %s (holders: %s)"
-                                    id t c e (List.length holders) (List.length vs) (field s "conf") (String.concat "," holders))
+                                    id t c e (List.length holders) (List.length vs) (List.nth confs (List.length confs - 1)) (String.concat "," holders))
+               end
            | _ -> ())
         end
       end) up;
+  List.iter (fun (id, s) -> Hashtbl.replace m.votes ("conf-of/" ^ id) (field s "conf")) up;
   (* C10: every FSM holds a prefix of the committed operation sequence *)
   let ops = Hashtbl.fold (fun i e acc -> (i, e) :: acc) m.committed [] |> List.sort compare
             |> List.filter_map (fun (_, e) -> match String.split_on_char ':' e with
